@@ -110,11 +110,23 @@ def h_setup_is_pure(f_units: int, f_space: int, o1: int, o2: int) -> bool:
     from harness.c08lib import setup_is_pure
     return setup_is_pure(f_units, f_space, o1, o2)
 '''
+    text += '''
+
+def h_step_count_units(u: int, g: int, opt: int, tu: int) -> bool:
+    """
+    pre: 0 <= u <= 10 and 0 <= g <= 1 and 0 <= opt <= 2 and 0 <= tu <= 3
+    post: _
+    """
+    from harness.c09lib import step_count_in_units
+    return step_count_in_units(u, g, opt, tu)
+'''
     mod = pysym.write_module("hgen_C10", text)
     pysym.run_auto(rec, mod, [{"fn": "h_is_complete", "what": "the completion status reported by an engine object always refers to its current set-up (every sequence of 4 wrapper calls, stand-in library finishing after 1..3 iterations)",
                                "sig": "c10-is-complete-stale", "structure": "LibRDEngine", "viol": "is_complete() reports the status of a previous set-up"},
                               {"fn": "h_setup_is_pure", "what": "a new set-up starts from a clean slate at the Python layer too: setting an engine object up leaves the caller's script untouched, so a later set-up of the same script on this or another engine object hands the native engine what a fresh identical script gives (6 unit-system choices x grid/graph x 3x3 engine kinds)",
-                               "sig": "c10-setup-not-clean", "structure": "LibRDEngine", "viol": "a set-up writes into the caller's script: a later set-up of the same script (same or other engine object) is not the simulation the script describes"}])
+                               "sig": "c10-setup-not-clean", "structure": "LibRDEngine", "viol": "a set-up writes into the caller's script: a later set-up of the same script (same or other engine object) is not the simulation the script describes"},
+                              {"fn": "h_step_count_units", "what": "a fixed-step run completes after ceil(t_max/dt) steps of the MODEL: the ratio t_max / time_step handed to the native engine equals the physical ratio, for t_max / time_step / sampling interval written with their own units (ms, min, h, s) under any of the 11 script systems, grid and graph, 3 engine kinds",
+                               "sig": "c10-step-count-units", "structure": "LibRDEngine", "viol": "the number of steps to completion depends on the units in which t_max / the time step are written"}])
     two_objects(rec)
 
 
